@@ -226,18 +226,18 @@ package geometry
 
 //@ spec func le32(d []byte, o int) int { d[o] + 256*d[o+1] + 65536*d[o+2] + 16777216*d[o+3] }
 // well-formedness of the compressed indexes (defined further below)
-//@ spec func RWFtop(d []byte, s *baseSeries) bool
-//@ spec func QWFtop(d []byte, s *baseSeries) bool
+//@ spec func RWFtop(d []byte, pts []Point, closed bool) bool
+//@ spec func QWFtop(d []byte, pts []Point, closed bool, bounds Rect) bool
 //@ spec func indexBytesOK(s *baseSeries, d []byte) bool {
 //@     len(d) >= 5 && 5 <= le32(d,1) && le32(d,1) <= len(d) && (d[0] == 1 || d[0] == 2) &&
-//@     (d[0] == 1 ==> RWFtop(slice(d, 0, le32(d,1)), s)) && (d[0] == 2 ==> QWFtop(slice(d, 0, le32(d,1)), s)) }
+//@     (d[0] == 1 ==> RWFtop(slice(d, 0, le32(d,1)), s.points, s.closed)) && (d[0] == 2 ==> QWFtop(slice(d, 0, le32(d,1)), s.points, s.closed, s.rect)) }
 //@ spec func IndexInv(s *baseSeries) bool { s.index == nil || (isBytes(s.index) && indexBytesOK(s, unboxBytes(s.index))) }
 
 //@ func rCompressSearch
 //@   props C04
 //@   arith order
 //@   trusted search side of the compressed R-tree not yet under contract
-//@   requires series != nil && addr == 5 && RWFtop(data, series)
+//@   requires series != nil && addr == 5 && RWFtop(data, series.points, series.closed)
 //@   iter iter(item) dom 0 <= item && item < bsNseg(series) ; match rectsMeet(segRect(bsSeg(series, item)), rect) ; args bsSeg(series, item), item
 //@   ensures result == !stopped
 
@@ -245,7 +245,7 @@ package geometry
 //@   props C04
 //@   arith order
 //@   trusted search side of the compressed quadtree not yet under contract
-//@   requires series != nil && addr == 5 && bounds == series.rect && QWFtop(data, series)
+//@   requires series != nil && addr == 5 && bounds == series.rect && QWFtop(data, series.points, series.closed, series.rect)
 //@   iter iter(item) dom 0 <= item && item < bsNseg(series) ; match rectsMeet(segRect(bsSeg(series, item)), rect) ; args bsSeg(series, item), item
 //@   ensures result == !stopped
 
@@ -613,3 +613,17 @@ package geometry
 //@   ret have DomBody: forall j int :: 0 <= j && j < sNseg(result) ==> inDom(sSeg(result,j).A) && inDom(sSeg(result,j).B)
 //@   ret have Dom: seriesInDomSeg(result)
 //@   ret have Cover: forall j int :: 0 <= j && j < sNseg(result) ==> (rectHas(sRect(result), sSeg(result,j).A) && rectHas(sRect(result), sSeg(result,j).B))
+
+//@ func NewLine
+//@   props C11 C01 C04
+//@   entry use globalsInit()
+//@   requires ExactSums: forall k int :: 0 <= k && k < len(points) ==> abs(trapCode(points,k) + trapTerm(points,k)) < pow53()
+//@   requires ptsInDom(points)
+//@   ensures Inv: LineInv(result)
+//@   ensures Model: !sClosed(result.baseSeries) && sNpts(result.baseSeries) == len(points) && (forall i int :: 0 <= i && i < len(points) ==> sPt(result.baseSeries, i) == ptAt(points, i))
+//@   ensures Rect: len(points) >= 2 ==> sRect(result.baseSeries) == bboxOf(points, len(points))
+//@   ensures Fresh: !old($alloc)[result]
+//@   ret have Series: isBS(result.baseSeries) && SeriesInv(result.baseSeries)
+//@   ret have Ends: forall j int :: 0 <= j && j < sNseg(result.baseSeries) ==> (sSeg(result.baseSeries,j).A == ptAt(points,j) && sSeg(result.baseSeries,j).B == ptAt(points, ite(j == len(points)-1, 0, j+1)))
+//@   ret have DomBody: forall j int :: 0 <= j && j < sNseg(result.baseSeries) ==> inDom(sSeg(result.baseSeries,j).A) && inDom(sSeg(result.baseSeries,j).B)
+//@   ret have Dom: seriesInDomSeg(result.baseSeries)
